@@ -86,7 +86,9 @@ Proof.
   - now apply run_edit_np.
   - now apply run_rebase_np.
   - now apply run_squash_np.
+  - now apply run_pick_np.
   - destruct (open_stack PAllow w); discriminate.
+  - apply run_git_np.
   - apply run_git_np.
   - apply run_git_np.
   - apply run_git_np.
